@@ -265,6 +265,49 @@ REGISTRY = {
 }
 
 
+def _selftest(pid, rep):
+    """thorough tier: test the checker both ways on scratch copies of /repo's working tree (outside /repo and /verif, removed afterwards):
+    every seeded change this property is recorded to detect must still be reported, every behaviour-preserving edit must stay silent"""
+    import subprocess, tempfile, shutil
+    from concurrent.futures import ThreadPoolExecutor
+    from .frontend import VERIF, repo_root, AnalysisBroken
+    jobs = []
+    sd = os.path.join(VERIF, 'seeded')
+    for d in sorted(os.listdir(sd)):
+        mp = os.path.join(sd, d, 'meta.json')
+        if os.path.exists(mp) and pid in (json.load(open(mp)).get('detected_by') or []):
+            jobs.append(('mutant', d, os.path.join(sd, d, 'patch.diff')))
+    ed = os.path.join(VERIF, 'selftest', 'equivalents')
+    for f in sorted(os.listdir(ed)):
+        if f.endswith('.diff'): jobs.append(('equivalent', f[:-5], os.path.join(ed, f)))
+    root = repo_root()
+    def one(job):
+        kind, name, patch = job
+        d = tempfile.mkdtemp(prefix='psa-self-')
+        try:
+            for sub in ('src', 'include', 'tests'):
+                shutil.copytree(os.path.join(root, sub), os.path.join(d, sub))
+            shutil.copy(os.path.join(root, 'CMakeLists.txt'), d)
+            r = subprocess.run('patch -p1 --fuzz=3 -s < %s' % patch, shell=True, cwd=d, capture_output=True, text=True)
+            if r.returncode != 0: return kind, name, None
+            env = dict(os.environ, POLYSEED_TREE=d, PSA_EVIDENCE_DIR=os.path.join(d, '_ev'), PSA_NESTED='1')
+            r = subprocess.run([os.path.join(VERIF, 'check'), pid, '--tier', 'quick'], capture_output=True, text=True, env=env, cwd=VERIF)
+            return kind, name, r.returncode
+        finally:
+            shutil.rmtree(d, ignore_errors=True)
+    fired = {}; silent = {}
+    with ThreadPoolExecutor(max_workers=14) as ex:
+        for kind, name, rc in ex.map(one, jobs):
+            if kind == 'mutant': fired[name] = rc
+            else: silent[name] = rc
+    rep.info['selftest'] = {'mutants_fired': {k: (v == 1) if v is not None else 'patch does not apply to this tree' for k, v in fired.items()},
+                            'equivalents_silent': {k: (v == 0) if v is not None else 'patch does not apply to this tree' for k, v in silent.items()}}
+    missed = sorted(k for k, v in fired.items() if v is not None and v != 1)
+    alarms = sorted(k for k, v in silent.items() if v == 1)
+    if missed or alarms:
+        raise AnalysisBroken('self-test of the checker failed: seeded changes no longer reported %s; behaviour-preserving edits reported %s' % (missed, alarms))
+
+
 def run(pid, tier, seed, replay=None):
     ent = REGISTRY[pid]
     ctx = Ctx(tier)
@@ -286,6 +329,8 @@ def run(pid, tier, seed, replay=None):
     dg, nfiles = source_digest()
     rep.info['source_sha256'] = dg; rep.info['source_files'] = nfiles
     rep.info['functions_analysed'] = {c: len(ctx._prog[c].defined) for c in ctx._prog}
+    if tier == 'thorough' and not os.environ.get('PSA_NESTED') and not rep.violations and not replay:
+        _selftest(pid, rep)
     rc = rep.finish(expl, ent['tb'], './check %s --tier %s' % (pid, tier))
     if replay:
         still = [v for v in rep.violations if v['key'] == want['key']]
